@@ -25,11 +25,10 @@ def contract_modules():
 
 
 def tree_hash():
-    """hash of everything a verdict depends on: repo sources, contracts, engine, interpreter facts"""
+    """hash of everything a verdict depends on besides function bodies: contracts, engine, interpreter facts,
+    solver budget, and the repository's structure (everything outside function bodies)"""
     h = hashlib.sha256()
-    from .repo import REPO_ROOT
-    files = sorted(glob.glob(os.path.join(REPO_ROOT, "usim", "**", "*.py"), recursive=True))
-    files += sorted(glob.glob(os.path.join(VERIF, "contracts", "*.py")))
+    files = sorted(glob.glob(os.path.join(VERIF, "contracts", "*.py")))
     files += sorted(glob.glob(os.path.join(VERIF, "pyvc", "*.py")))
     files += [os.path.join(VERIF, "facts.json")]
     for f in files:
@@ -40,7 +39,23 @@ def tree_hash():
         except OSError:
             h.update(b"<missing>")
     h.update(os.environ.get("PYVC_Z3_TIMEOUT_MS", "").encode())
+    from .repo import RepoIndex
+    h.update(RepoIndex().structure_hash().encode())
     return h.hexdigest()
+
+
+def current_deps(repo, deps):
+    """re-evaluate a stored dependency manifest (driver.verify_one) against the current tree"""
+    cur = {}
+    for k, v in deps.items():
+        if k.startswith("contract:"):
+            q = k[len("contract:"):]
+            fi = repo.func(q)
+            cur[k] = "present" if (fi is not None or q.startswith("abstract:")) else "missing"
+        else:
+            fi = repo.func(k)
+            cur[k] = fi.ast_hash() if fi is not None else None
+    return cur
 
 
 def load_facts():
@@ -67,17 +82,21 @@ def _init_worker():
 
 def _verify_worker(args):
     fqn, thash, tier = args
+    # run-time cache (never committed): a record is reused only if the engine, the contracts, the repository
+    # structure and the body of every function the record was generated from (itself + inlined callees) are
+    # unchanged; then generation is a deterministic function of identical inputs.
+    if "reg" not in _worker_state:
+        _init_worker()
     cpath = os.path.join(CACHE_DIR, hashlib.sha256((thash + fqn + tier).encode()).hexdigest()[:32] + ".json")
     if os.path.exists(cpath) and not os.environ.get("PYVC_NOCACHE"):
         try:
             with open(cpath) as fh:
                 rec = json.load(fh)
-            rec["cached"] = True
-            return rec
+            if rec.get("deps") and current_deps(_worker_state["repo"], rec["deps"]) == rec["deps"]:
+                rec["cached"] = True
+                return rec
         except Exception:
             pass
-    if "reg" not in _worker_state:
-        _init_worker()
     from .driver import verify_one
     t0 = time.time()
     try:
